@@ -8,7 +8,9 @@
 (*    of the previous one, so buffers may or may not be shared (aliasing);           *)
 (*  - every behaviour of length MaxDepth is exported and replayed on real arrays;    *)
 (*  - the theorems below are checked on every behaviour, and MechRefines checks the  *)
-(*    implementation-shaped swap decision against the property-level conversion.     *)
+(*    implementation-shaped step (swap decision, ndarray.byteswap, dtype assignment:  *)
+(*    result, object identity, dtype left on the argument) against the property-level *)
+(*    conversion, for every layout.                                                   *)
 EXTENDS ByteOrder, Json
 
 CONSTANTS MinFields, MaxFields,   \* structured arrays of MinFields..MaxFields fields
@@ -19,10 +21,10 @@ CONSTANTS MinFields, MaxFields,   \* structured arrays of MinFields..MaxFields f
           Layouts,                \* memory layouts of the initial array (subset of BOLayouts)
           InplaceFirst,           \* TRUE: only chains whose steps before the last are in place (the
                                   \*       current array stays the initial window; thins deep runs)
-          NestedDetect,           \* mechanism variants, see ByteOrder.tla
-          RetypeAlways,
           MaxDepth,               \* chain length
-          FixedDetect,            \* mechanism variant, see ByteOrder.tla
+          FixedDetect,            \* mechanism variants, see ByteOrder.tla
+          NestedDetect,
+          RetypeAlways,
           DoExport
 
 VARIABLES phase, init, ops, snaps, arrs, bufs, cur
